@@ -57,6 +57,10 @@ def check(run, P):
              minimum=4)
     _nulls(run, P)
     _sorted(run, P)
+    # the roots the walk starts from are computed order-independently (shared with C04.sinks)
+    from . import c04 as _c04
+    from .c01 import _alias as _al
+    _al(run, "C04.sinks", "C05.sorted", lambda: _c04._sinks(run, P))
     _topo_wrap(run, P)
     _loops(run, P)
     _cond(run, P)
